@@ -1,6 +1,7 @@
 (* Evaluation helpers for C19: boolean equalities on the model's outcome types, the probe comparison used by
    Proofs/C19/Tables.v, and the evaluators run by the generated case files of harness/c19.py
    (M = code on observed plans and on decoder probes; S judged on the code's own observations). *)
+From Coq Require Import String.
 From TT Require Import Base.Prelude Base.CliTypes Gen.CliUnicode Model.Cli Spec.CliSpec.
 
 Definition opt_eqb {A} (f : A -> A -> bool) (a b : option A) : bool :=
@@ -13,7 +14,7 @@ Fixpoint list_eqb {A} (f : A -> A -> bool) (a b : list A) : bool :=
   end.
 Definition exn_code (e : exn) : Z :=
   match e with EValue => 1 | EType => 2 | EAttribute => 3 | EZeroDivision => 4 | EOverflow => 5 | EJsonDecode => 6
-             | EOSError => 7 | EExitUnsupported => 8 | EExitUsage => 9 end.
+             | EOSError => 7 | EExitUnsupported => 8 | EExitUsage => 9 | EStage n => 100 + Z.abs n end.
 Definition exn_eqb (a b : exn) : bool := exn_code a =? exn_code b.
 Definition align_code (a : scc_align) : Z := match a with AlLeft => 0 | AlCenter => 1 | AlRight => 2 | AlAuto => 3 end.
 Definition align_eqb (a b : scc_align) : bool := align_code a =? align_code b.
@@ -23,7 +24,6 @@ Definition mrc_eqb (a b : mrc) : bool :=
   match a, b with
   | MrcMNR, MrcMNR => true
   | MrcInt x, MrcInt y => x =? y
-  | MrcBool x, MrcBool y => Bool.eqb x y
   | _, _ => false
   end.
 Definition rgba_eqb (a b : rgba) : bool :=
@@ -84,39 +84,116 @@ Definition probe_res_eqb (a b : probe_res) : bool :=
   match a, b with POk x, POk y => cval_eqb x y | PRaise x, PRaise y => exn_eqb x y | _, _ => false end.
 Definition probe_of (r : res cval) : probe_res := match r with Ok c => POk c | Raise e => PRaise e end.
 
+Definition event_eqb (a b : event) : bool :=
+  match a, b with
+  | EvProgress x, EvProgress y => Bool.eqb x y
+  | EvLevel x, EvLevel y => x =? y
+  | EvRead r p, EvRead r' p' => reader_eqb r r' && text_eqb p p'
+  | EvLang x, EvLang y => text_eqb x y
+  | EvFilter x, EvFilter y => filter_app_eqb x y
+  | EvWrite x, EvWrite y => writer_eqb x y
+  | EvOutput x, EvOutput y => text_eqb x y
+  | _, _ => false
+  end.
+Definition final_eqb (a b : final unit) : bool :=
+  match a, b with
+  | FHelp, FHelp => true
+  | FError x, FError y => exn_eqb x y
+  | FDone p _, FDone q _ => text_eqb p q
+  | _, _ => false
+  end.
+
 (* ---- decoder probes: (key, JSON value, what the code did) *)
 Definition probe_ok (p : key * json * probe_res) : bool :=
   match p with (k, v, r) => probe_res_eqb (probe_of (decode k v)) r end.
 Definition probes_model (ps : list (key * json * probe_res)) : list bool := List.map probe_ok ps.
-(* S on the code's own answer: 0 = the code accepts v iff README documents it; 1/2/3 = it does not and the trigger
-   of recorded finding 1/2/3 covers (k, v); 9 = it does not and no trigger covers it *)
+(* S on the code's own answer: 0 = the code accepts v iff README documents it, and when it does the decoded value is the
+   documented meaning; 2/3 = it does not and the trigger of recorded finding 2/3 covers (k, v); 8 = accepted and
+   documented but the decoded value is not the documented meaning; 9 = acceptance differs and no trigger covers it *)
 Definition probe_class (p : key * json * probe_res) : Z :=
   match p with (k, v, r) =>
     let accepted := match r with POk _ => true | PRaise _ => false end in
-    if is_null v then 0
-    else if Bool.eqb accepted (documented k v) then 0
-    else if trigger_bool k v then 1
+    if negb (in_table k v) then 0
+    else if Bool.eqb accepted (documented k v)
+         then match r with
+              | POk c => if documented k v && negb (cval_eqb c (meaning k v)) then 8 else 0
+              | PRaise _ => 0
+              end
     else if trigger_lenient k v then 2
     else if trigger_rejected k v then 3
     else 9
   end.
 Definition probes_spec (ps : list (key * json * probe_res)) : list Z := List.map probe_class ps.
 
-(* ---- command lines: (argv, --config, --config_file, the outcome observed by instrumenting tt.main,
+(* ---- command lines: (tokens, what json.loads made of each --config string, what each --config_file path gave,
+                        the log and the end observed by running tt.main with recorders in place of readers/filters/writers,
                         exit status of the real process, output file exists afterwards, comparison with the library run) *)
-Definition cli_case := (argv * inline_src * file_src * outcome * Z * bool * Z)%type.
+Definition cli_case := (list text * list (text * option json) * list (text * file_src) * list event * final unit * Z * bool * Z)%type.
+(* the recorders as stage functions: a document is the number of stage calls made so far; stage `inject` raises *)
+Definition st_read (inject : Z) (r : reader) (p : text) : res Z := if inject =? 0 then Raise (EStage 1) else Ok 1.
+Definition st_lang (l : text) (d : Z) : Z := d.
+Definition st_filter (inject : Z) (f : filter_app) (d : Z) : res Z := if inject =? d then Raise (EStage 1) else Ok (d + 1).
+Definition st_write (inject : Z) (w : writer) (d : Z) : res unit := if inject =? d then Raise (EStage 1) else Ok tt.
+Definition model_run (inject : Z) (jenv : list (text * option json)) (fenv : list (text * file_src)) (toks : list text) : list event * final unit :=
+  run_tokens Z unit (st_read inject) st_lang (st_filter inject) (st_write inject)
+             (fun t => match env_get t jenv with Some (Some j) => Some j | _ => None end)
+             (fun p => match env_get p fenv with Some f => f | None => FUnreadable end) toks.
 Definition case_model (c : cli_case) : bool :=
-  match c with (a, i, f, obs, _, _, _) => outcome_eqb (plan a i f) obs end.
+  match c with (toks, jenv, fenv, ev, fin, _, _, _) =>
+    let (ev', fin') := model_run (-1) jenv fenv toks in list_eqb event_eqb ev' ev && final_eqb fin' fin
+  end.
 Definition cases_model (cs : list cli_case) : list bool := List.map case_model cs.
-(* 0 = S holds with no finding excused; 100 + mask = S holds only because recorded findings (mask) are excused;
-   9 = S is contradicted *)
+(* the options S reads off a command line *)
+Definition case_options (toks : list text) : option (options * option text * option text) :=
+  match toks with
+  | sub :: rest => if text_eqb sub (T "convert") then match spec_items rest with Some items => spec_options items | None => None end else None
+  | [] => None
+  end.
+(* 0 = S holds with no finding excused, and when every value is documented the observed plan is spec_plan's;
+   100 + mask = S holds only because recorded findings (mask) are excused; 8 = the observed plan is not the plan README
+   prescribes although every consulted value is inside the table and outside every trigger; 9 = S is contradicted *)
 Definition case_class (c : cli_case) : Z :=
-  match c with (a, i, f, obs, rc, out_exists, cmp) =>
-    if spec_case true a i f obs rc out_exists cmp then 0
-    else if spec_case false a i f obs rc out_exists cmp then 100 + case_mask a i f
+  match c with (toks, jenv, fenv, ev, fin, rc, out_exists, cmp) =>
+    if spec_case true toks jenv fenv ev fin rc out_exists cmp
+    then match case_options toks with
+         | Some (o, cc, cf) =>
+             let i := env_inline jenv cc in let f := env_file fenv cf in
+             if sources_ok i f && clean o (effective i f)
+             then match spec_plan o (effective i f), fin with
+                  | Some p, FDone _ _ => match plan_of_events ev with Some q => if plan_eqb p q then 0 else 8 | None => 8 end
+                  | None, FError _ => 0
+                  | _, _ => 8
+                  end
+             else 0
+         | None => 0
+         end
+    else if spec_case false toks jenv fenv ev fin rc out_exists cmp
+         then 100 + match case_options toks with
+                    | Some (o, cc, cf) => options_mask o (effective (env_inline jenv cc) (env_file fenv cf))
+                    | None => 0
+                    end
     else 9
   end.
 Definition cases_spec (cs : list cli_case) : list Z := List.map case_class cs.
+
+(* ---- the same command lines with one stage made to raise: (tokens, environments, index of the failing stage call,
+        observed log, observed end) *)
+Definition inj_case := (list text * list (text * option json) * list (text * file_src) * Z * list event * final unit)%type.
+Definition inj_model (c : inj_case) : bool :=
+  match c with (toks, jenv, fenv, inject, ev, fin) =>
+    let (ev', fin') := model_run inject jenv fenv toks in list_eqb event_eqb ev' ev && final_eqb fin' fin
+  end.
+(* S: a run that ends in an error has opened no output file; one that ends well has, once and last *)
+Definition inj_spec (c : inj_case) : bool :=
+  match c with (_, _, _, _, ev, fin) =>
+    match fin with
+    | FDone _ _ => shape_from 0 ev =? 7
+    | FError _ => no_output_event ev && negb (shape_from 0 ev <? 0)
+    | FHelp => match ev with [] => true | _ => false end
+    end
+  end.
+Definition injs_model (cs : list inj_case) : list bool := List.map inj_model cs.
+Definition injs_spec (cs : list inj_case) : list bool := List.map inj_spec cs.
 
 (* ---- posixpath.splitext / FileTypes.get_file_type alone: (file_type, path, extension seen, type code or -1) *)
 Definition ftype_code (t : ftype) : Z := match t with TTML => 0 | SCC => 1 | SRT => 2 | STL => 3 | VTT => 4 end.
